@@ -185,18 +185,19 @@ class DryRunRenamer:
         # directories - the bookkeeping has to use absolute paths
         source_key = Path(os.path.abspath(source_path))
         destination_key = Path(os.path.abspath(destination_path))
-        source_exists = (
-            os.path.lexists(source_path) or source_key in self.created_paths
-        ) and source_key not in self.removed_paths
-        if not source_exists:
-            raise FileNotFoundError(f"No such file or directory: {source_path}")
-
+        # Same order of checks as in the real renamers: destination first
         destination_exists = (
             os.path.lexists(destination_path)
             or destination_key in self.created_paths
         ) and destination_key not in self.removed_paths
         if destination_exists and not override:
             raise DestinationAlreadyExistsError(source_path, destination_path)
+
+        source_exists = (
+            os.path.lexists(source_path) or source_key in self.created_paths
+        ) and source_key not in self.removed_paths
+        if not source_exists:
+            raise FileNotFoundError(f"No such file or directory: {source_path}")
 
         self.removed_paths.add(source_key)
         self.created_paths.add(destination_key)
